@@ -11,7 +11,7 @@ import (
 	"strconv"
 	"time"
 
-	_ "verif/mc/checks"
+	"verif/mc/checks"
 	"verif/mc/engine"
 	"verif/mc/selftest"
 )
@@ -37,6 +37,14 @@ func main() {
 		for _, id := range engine.IDs() {
 			fmt.Println(id)
 		}
+	case "ops":
+		// jdmc ops <kind> <a> <b>: every observable output for one world, from this fresh process
+		outs, err := checks.OpsOutputs(os.Args[2], os.Args[3], os.Args[4])
+		if err != nil {
+			os.Exit(4)
+		}
+		b, _ := json.Marshal(outs)
+		os.Stdout.Write(b)
 	case "size":
 		// jdmc size Cxx [tier]: cases per leg, estimated from shard 0 of 16
 		ck := engine.Get(os.Args[2])
